@@ -98,6 +98,15 @@ def gen(rng, tier):
         shape = [rng.choice([1, 1, 1, 7]) for _ in range(n)]
         a = rng.randrange(n); b = rng.randrange(a, n)
         cases.append(mk(rng.choice(["util", "construct", "infer"]), rng.choice(["nd", "list", "tuple"]), shape, a, b))
+    # inference of a Flatten that sits directly behind a convolution / pooling / element-wise node (which keep the shape
+    # here: 1x1 kernels, stride 1) — the predecessor's class must not matter
+    for _ in range(60 if tier == "quick" else 600):
+        n = rng.choice([2, 3, 3, 3, 4])
+        shape = [rng.choice([2, 3, 5, 6]) for _ in range(n)]
+        a = rng.randrange(n); b = rng.randrange(a, n)
+        c = mk("infer", "nd", shape, rng.choice([a, a - n]), rng.choice([b, b - n]))
+        c["pre"] = rng.choice({2: ["conv1d", "scale"], 3: ["conv2d", "sumpool", "avgpool", "conv2d", "sumpool"], 4: ["scale"]}[n])
+        cases.append(c)
     # malformed stream
     cases.append(mk("util", "list", [], 0, -1))
     cases.append(mk("construct", "nd", [2, 3], 5, 7))
@@ -108,11 +117,25 @@ def recipe_for(c):
     if c["kind"] == "construct":
         return {"k": "Flatten", "args": {"input_type": shape_form(c["shape"], c["form"]),
                                          "start_dim": c["s"], "end_dim": c["e"]}}
-    return {"k": "NIRGraph", "nodes": {
-        "in": {"k": "Input", "args": {"input_type": shape_form(c["shape"], c["form"] if c["form"].startswith("nd") else "nd")}},
-        "fl": {"k": "Flatten", "args": {"input_type": None, "start_dim": c["s"], "end_dim": c["e"]}},
-        "out": {"k": "Output", "args": {"output_type": None}}},
-        "edges": [("in", "fl"), ("fl", "out")]}
+    nodes = {"in": {"k": "Input", "args": {"input_type": shape_form(c["shape"], c["form"] if c["form"].startswith("nd") else "nd")}}}
+    edges = [("in", "fl"), ("fl", "out")]
+    pre = c.get("pre")
+    if pre:
+        ch = c["shape"][0]
+        one = np.array([1, 1]); zero = np.array([0, 0])
+        nodes["pre"] = {
+            "conv1d": lambda: {"k": "Conv1d", "args": {"input_shape": None, "weight": np.ones((ch, ch, 1), dtype="float32"), "stride": 1,
+                                                       "padding": 0, "dilation": 1, "groups": 1, "bias": np.zeros(ch, dtype="float32")}},
+            "conv2d": lambda: {"k": "Conv2d", "args": {"input_shape": None, "weight": np.ones((ch, ch, 1, 1), dtype="float32"), "stride": 1,
+                                                       "padding": 0, "dilation": 1, "groups": 1, "bias": np.zeros(ch, dtype="float32")}},
+            "sumpool": lambda: {"k": "SumPool2d", "args": {"kernel_size": one, "stride": one, "padding": zero}},
+            "avgpool": lambda: {"k": "AvgPool2d", "args": {"kernel_size": one, "stride": one, "padding": zero}},
+            "scale": lambda: {"k": "Scale", "args": {"scale": np.ones(tuple(c["shape"]), dtype="float32")}},
+        }[pre]()
+        edges = [("in", "pre"), ("pre", "fl"), ("fl", "out")]
+    nodes["fl"] = {"k": "Flatten", "args": {"input_type": None, "start_dim": c["s"], "end_dim": c["e"]}}
+    nodes["out"] = {"k": "Output", "args": {"output_type": None}}
+    return {"k": "NIRGraph", "nodes": nodes, "edges": edges}
 
 
 def run(c):
@@ -124,7 +147,7 @@ def run(c):
     a = s + n if s < 0 else s
     b = e + n if e < 0 else e
     nontriv = exp is not None and n >= 2 and (b > a or s < 0 or e < 0)
-    sig = (c["kind"], c["form"], tuple(shape), s, e)
+    sig = (c["kind"], c["form"], tuple(shape), s, e, c.get("pre"))
     fail = None
     if c["kind"] == "util":
         try:
@@ -135,6 +158,16 @@ def run(c):
         coq = f"(FlatUtil {F.czlist(shape)} {F.cz(s)} {F.cz(e)} {res_list(obs)})"
         if exp is not None and obs != ("ok", exp):
             fail = f"calc_flatten_output({shape}, {s}, {e}) -> {obs}, reshaping a real array gives {exp}"
+        elif exp is not None and isinstance(out, np.ndarray) and out.size:
+            # the result is a function of the arguments, not of what a caller did with an earlier result
+            try:
+                out[...] = 77
+                again = ints_or_none(calc_flatten_output(shape_form(shape, c["form"]), s, e))
+            except BaseException as ex:  # noqa: BLE001
+                again = type(ex).__name__
+            if again != exp:
+                fail = (f"calc_flatten_output({shape}, {s}, {e}) -> {again} after an earlier result of the same call was "
+                        f"overwritten in place; expected {exp}")
         return Outcome(coq, fail, nontriv, sig)
     r = recipe_for(c)
     if c["kind"] == "construct":
@@ -149,17 +182,25 @@ def run(c):
                     fail = f"Flatten({shape}, {s}, {e}) [{c['form']}].output_type = {res[1].output_type}, expected {exp}"
                 elif tval(res[1].input_type, "input") != list(shape):
                     fail = f"Flatten({shape}).input_type = {res[1].input_type}"
+                else:
+                    # a second, independently built node must not depend on what happened to the first one's types
+                    res[1].output_type["output"][...] = 77
+                    res2 = try_build(r)
+                    got2 = tval(res2[1].output_type, "output") if res2[0] == "ok" else res2[1]
+                    if got2 != exp:
+                        fail = (f"a second Flatten({shape}, {s}, {e}) built after the first one's output type was overwritten "
+                                f"in place has output {got2}, expected {exp}")
         return Outcome(coq, fail, nontriv, sig)
     res = run_infer(r)
     coq = f"(FlatG {cinfer(r, res)})"
     if exp is not None:
         if res[0] != "ok" or res[2]:
-            fail = f"infer_types on Input({shape})->Flatten(None,{s},{e})->Output(None) raised {res[-1]}"
+            fail = f"infer_types on Input({shape})->{c.get('pre') or ''}->Flatten(None,{s},{e})->Output(None) raised {res[-1]}"
         else:
             g = res[1]
             got = tval(g.nodes["fl"].output_type, "output")
             if got != exp:
-                fail = f"inferred Flatten output {got}, expected {exp} for shape {shape}, dims ({s},{e})"
+                fail = f"inferred Flatten output {got}, expected {exp} for shape {shape}, dims ({s},{e}), predecessor {c.get('pre') or 'Input'}"
             elif tval(g.nodes["out"].output_type, "output") != exp or tval(g.nodes["out"].input_type, "input") != exp:
                 fail = f"Output node not typed {exp} after inference: {g.nodes['out'].input_type} {g.nodes['out'].output_type}"
             elif tval(g.nodes["fl"].input_type, "input") != list(shape):
